@@ -15,17 +15,20 @@ RULE = (
     "quick: every history of length <= 4 over a 9-letter alphabet (add / twin add / add_all / remove present / remove "
     "present-only-in-the-other-view / remove of a twin / create_view / create_type by short supertype name / add of the "
     "new type) on the tree {t.A < Annotation, t.B < t.A, u.A < TOP}, each followed by select_all and select probes through "
-    "both handles (type object, full name, unique and ambiguous short name), plus 320 seeded random histories of up to 60 "
-    "operations over random trees (depth <= 5, fan-out <= 3, short-name collisions, annotation and non-annotation types, "
-    "types created before and in the middle of the history, 1-3 views, several handles per view, deprecated aliases, "
-    "lenient and strict CAS, foreign types); thorough: length <= 5 and 3000 random histories. A case is non-trivial when "
+    "both handles (type object, full name, unique and ambiguous short name, Type object of a second type system that holds "
+    "t.D and a dot-free D from the start; every fourth history on a lenient CAS), plus 320 seeded random histories of up to 60 "
+    "operations over random trees (depth <= 5, fan-out <= 3, short-name collisions, dot-free names, annotation and "
+    "non-annotation types, types created before and in the middle of the history, 1-3 views, several handles per view, "
+    "deprecated aliases, lenient and strict CAS, structures and Type objects of a second type system that holds the whole "
+    "universe plus up to 3 types of its own); thorough: length <= 5 and 3000 random histories. A case is non-trivial when "
     "it queries after a failing remove, after a create_type that followed an add, or with two populated views."
 )
 TRUSTED = [
     "Coq 8.16.1 kernel and vm_compute (no native_compute); theorems in Props/C06.v are closed under the global context",
     "hand-written model coq/Select.v: View._indices as assoc list of per-type sorted lists (Index.v), defaultdict side "
     "effects, Cas.add's lenient check, SortedKeyList.add/remove by contract (insort right; bisect_left then key match), "
-    "Type.descendants with fuel, TypeSystem.get_type name resolution, create_type as leaf insertion in a parent map",
+    "Type.descendants with fuel, TypeSystem.get_type name resolution, create_type as leaf insertion in a parent map; "
+    "a Type object of another TypeSystem is that system's create_type history, select walks its tree",
     "set iteration order of {c.name for c in descendants} is an argument of the model's select; theorems quantify over it",
     "correspondence harness: harness/props/C06.py drives the public API, harness/core.py compares inside Coq",
     "an object's identity is its label; type and offsets of a structure do not change while it is indexed "
@@ -35,7 +38,8 @@ TRUSTED = [
 ASSUMPTIONS = [
     "ties in (begin, end) and all non-annotation structures of one type are ordered by id(): results are compared per "
     "concrete type as (begin, end) sequences and as label multisets",
-    "select by Type object uses a Type of the CAS's own type system",
+    "the second type system of a scenario is complete before the history starts (no create_type on it in mid-history; "
+    "the model and the theorems allow any)",
 ]
 
 MAXSIZE = 9223372036854775807
@@ -64,13 +68,16 @@ ERR = {"ValueError": "EValue", "RuntimeError": "ERuntime", "KeyError": "EKey", "
 
 # ------------------------------------------------------------------------------------------------ scenarios
 # sc = {"lenient": bool, "univ": [[name, parent]...] (every user type that may appear, parents first),
+#       "funiv": [[name, supertype]...] create_type calls that build the second type system (default: univ),
 #       "fs": [[label, type, begin|None, end|None]...], "ops": [...], optional "kind"}
 # ops: ["add", h, label, alias] ["add_all", h, [labels], alias] ["remove", h, label, alias] ["create_view", h, name]
 #      ["get_view", h, name] ["create_type", name, sup] ["select", h, type name, form, order] ["select_all", h]
 # a handle number is taken modulo the number of handles that exist at that point, "type" form falls back to the full
 # name when the type does not exist yet: every subsequence of a history is again a history (shrinking).
+# select forms: "type" (Type object of the CAS's type system), "full", "short", "ftype" (Type object of the second one).
 
 EX_UNIV = [["t.A", ANNO], ["t.B", "t.A"], ["u.A", TOP], ["t.D", "t.B"]]
+EX_FUNIV = EX_UNIV + [["D", "u.A"]]     # the second type system: the same tree and a dot-free name (short name of t.D)
 EX_FS = [[1, "t.A", 0, 1], [2, "t.B", 0, 1], [3, "t.A", 0, 1], [4, "u.A", None, None], [5, "t.D", 0, 0]]
 EX_PRE = [["create_type", "t.A", ANNO], ["create_type", "t.B", "t.A"], ["create_type", "u.A", TOP]]
 EX_LETTERS = [
@@ -88,6 +95,8 @@ def _ex_probes(k):
         p.append(["select", 1, ANNO, ["short", "type", "full"][k % 3], ["t.B", "t.A", ANNO]])
     if k % 11 == 0:
         p.append(["select", 0, TOP, "full", []])
+    if k % 3 == 1:                                            # Type object of the second type system
+        p.append(["select", (k // 3) % 2, ["t.A", "t.D", "D", "t.B", ANNO][(k // 6) % 5], "ftype", []])
     return p
 
 
@@ -96,7 +105,7 @@ def _exhaustive(maxlen):
     for n in range(maxlen + 1):
         for word in itertools.product(range(len(EX_LETTERS)), repeat=n):
             k += 1
-            yield {"kind": "ex", "lenient": False, "univ": EX_UNIV, "fs": EX_FS, "own": k % 3 == 0,
+            yield {"kind": "ex", "lenient": k % 4 == 1, "univ": EX_UNIV, "funiv": EX_FUNIV, "fs": EX_FS, "own": k % 3 == 0,
                    "ops": EX_PRE + [EX_LETTERS[i] for i in word] + _ex_probes(k), "npre": 3, "nprobe": len(_ex_probes(k)), "k": k}
 
 
@@ -109,7 +118,7 @@ def _random_history(rng, maxops):
     tries = 0
     while len(univ) < want and tries < 100:
         tries += 1
-        name = rng.choice(["t.", "u.", "t.n."]) + rng.choice(pool) + rng.choice(["", "", "1", "2"])
+        name = rng.choice(["t.", "u.", "t.n.", "t.", "u.", "t.n.", ""]) + rng.choice(pool) + rng.choice(["", "", "1", "2"])
         if any(name == u[0] for u in univ):
             continue
         cands = [r for r in roots] + [u[0] for u in univ if depth[u[0]] < 5 and kids.get(u[0], 0) < 3]
@@ -119,18 +128,29 @@ def _random_history(rng, maxops):
         kids[par] = kids.get(par, 0) + 1
     parent = dict(BUILTIN)
     parent.update({n: p for n, p in univ})
+    # the second type system: the whole universe and a few types of its own (dot-free names too: such a name can be
+    # the short name of a type of the CAS)
+    fextra = []
+    for _ in range(rng.choice([0, 1, 2, 3])):
+        name = rng.choice(["", "", "x.", "t."]) + rng.choice(pool) + rng.choice(["", "", "1"])
+        if any(name == u[0] for u in univ + fextra):
+            continue
+        fextra.append([name, rng.choice(roots + [u[0] for u in univ + fextra])])
+    funiv = univ + fextra
+    fparent = dict(parent)
+    fparent.update({n: p for n, p in fextra})
 
     def is_anno(t):
         while t is not None:
             if t == ANNO:
                 return True
-            t = parent.get(t)
+            t = fparent.get(t)
         return False
 
     # feature structures: clustered offsets (ties), twins, unset offsets, non-annotation types
     fstab = []
     nfs = rng.randint(1, 18)
-    tpool = [u[0] for u in univ] + [ANNO] + ([TOP] if rng.random() < 0.3 else [])
+    tpool = [u[0] for u in univ] + [ANNO] + ([TOP] if rng.random() < 0.3 else []) + [u[0] for u in fextra]
     hi = rng.choice([2, 3, 6, 1000])
     for l in range(1, nfs + 1):
         if fstab and rng.random() < 0.2:
@@ -207,10 +227,11 @@ def _random_history(rng, maxops):
                 ops.append(["create_type", "t.Orphan", "no.Such"])                     # TypeNotFoundError
         elif r < 0.90:
             t = rng.choice(tpool + [ANNO, TOP, "uima.cas.AnnotationBase"] + ([u[0] for u in univ] * 2))
-            form = rng.choice(["type", "full", "short"])
+            form = rng.choice(["type", "full", "short", "ftype"])
             order = []
             if rng.random() < 0.2:
-                sub = [n for n in parent if _below(parent, n, t)]
+                tree = fparent if form == "ftype" else parent
+                sub = [n for n in tree if _below(tree, n, t)]
                 rng.shuffle(sub)
                 order = sub
             ops.append(["select", h, t, form, order])
@@ -220,7 +241,7 @@ def _random_history(rng, maxops):
     for h in range(min(nh, 3)):
         ops.append(["select_all", h])
         ops.append(["select", h, rng.choice([ANNO, TOP]), rng.choice(["type", "full"]), []])
-    return {"kind": "rnd", "lenient": rng.random() < 0.25, "univ": univ, "fs": fstab, "ops": ops}
+    return {"kind": "rnd", "lenient": rng.random() < 0.3, "univ": univ, "funiv": funiv, "fs": fstab, "ops": ops}
 
 
 def _below(parent, n, t):
@@ -243,9 +264,22 @@ def generate(rng, tier):
 _FTS = {}
 
 
+def _funiv(sc):
+    return sc.get("funiv") or sc["univ"]
+
+
+def _fparent(sc):
+    """Supertype map of the second type system (every create_type of funiv succeeds: checked in _foreign)."""
+    fp = {TOP: None}
+    fp.update(dict(BUILTIN))
+    for n, p in _funiv(sc):
+        fp[n] = p
+    return fp
+
+
 def _foreign(univ):
     """A second type system holding every type of the universe: structures whose type the CAS's own type system does
-    not (yet) have are instances of its types."""
+    not (yet) have are instances of its types, and its Type objects are passed to select."""
     key = json.dumps(univ)
     if key not in _FTS:
         from cassis import TypeSystem
@@ -253,7 +287,7 @@ def _foreign(univ):
             _FTS.clear()
         fts = TypeSystem()
         for n, p in univ:
-            fts.create_type(n, p)
+            assert fts.create_type(n, p).supertype.name == p       # full supertype names: the oracle's map is the tree
         _FTS[key] = fts
     return _FTS[key]
 
@@ -261,7 +295,7 @@ def _foreign(univ):
 def run_impl(cassis, sc):
     from cassis import Cas, TypeSystem
     ts = TypeSystem()
-    fts = _foreign(sc["univ"])
+    fts = _foreign(_funiv(sc))
     cas = Cas(typesystem=ts, lenient=bool(sc["lenient"]))
     handles = [cas]
     table = {f[0]: f for f in sc["fs"]}
@@ -324,6 +358,8 @@ def run_impl(cassis, sc):
                 t, form = op[2], op[3]
                 if form == "type" and ts.contains_type(t, True):
                     arg = ts.get_type(t)
+                elif form == "ftype" and fts.contains_type(t, True):
+                    arg = fts.get_type(t)
                 elif form == "short":
                     arg = t.split(".")[-1]
                 else:
@@ -357,6 +393,7 @@ def expected(sc):
     bags = {"_InitialView": []}
     handles = ["_InitialView"]
     table = {f[0]: f for f in sc["fs"]}
+    fparent = _fparent(sc)
     out = []
     for op in sc["ops"]:
         kind = op[0]
@@ -403,6 +440,11 @@ def expected(sc):
                 out.append(("ok",))
         elif kind == "select":
             t, form = op[2], op[3]
+            if form == "ftype" and t in fparent:
+                # a Type object is T itself: the subtree is the one of the type system it belongs to, and whether the
+                # CAS's own type system knows that name (or something else by that name) plays no part
+                out.append(("list", sorted(l for l in bags[v] if _below(fparent, table[l][1], t))))
+                continue
             if form == "type" and t in types:
                 T = t
             else:
@@ -483,7 +525,7 @@ def _gobs(o):
     return "IL [" + ";".join(groups) + "]"
 
 
-def _gop(table, op, h, ts_known):
+def _gop(table, op, h, ts_known, fknown=(), fu="[]"):
     k = op[0]
     if k == "add":
         return f"A {h} {_fs(table, op[2])}"
@@ -501,6 +543,8 @@ def _gop(table, op, h, ts_known):
         t, form = op[2], op[3]
         if form == "type" and ts_known(t):
             q = f"(Ty {_s(t)})"
+        elif form == "ftype" and t in fknown:
+            q = f"(Fo {fu} {_s(t)})"
         elif form == "short":
             q = f"(Nm {_s(t.split('.')[-1])})"
         else:
@@ -515,9 +559,12 @@ def render(sc, obs):
     table = {f[0]: f for f in sc["fs"]}
     # which types the CAS's type system holds at each point is read off the implementation's own answers
     known = {TOP} | {n for n, _ in BUILTIN}
+    fknown = set(_fparent(sc))
+    ex = sc.get("kind") == "ex" and _funiv(sc) == EX_FUNIV
+    uses_f = any(op[0] == "select" and op[3] == "ftype" and op[2] in fknown for op in sc["ops"])
     ops_t, obs_t = [], []
     for op, h, o in zip(sc["ops"], obs["eh"], obs["obs"]):
-        ops_t.append(_gop(table, op, h, lambda t: t in known))
+        ops_t.append(_gop(table, op, h, lambda t: t in known, fknown, "ex_fu" if ex else "fu"))
         obs_t.append(_gobs(o))
         if op[0] == "create_type" and o[0] == "ok":
             known.add(op[1])
@@ -527,6 +574,9 @@ def render(sc, obs):
         ops_s = f"(ex_pre ++ [{';'.join(mid)}] ++ [{';'.join(ops_t[len(ops_t) - npro:])}])"
     else:
         ops_s = "[" + ";".join(ops_t) + "]"
+    if uses_f and not ex:
+        fu = ";".join(f"({_s(n)},{_s(p)})" for n, p in _funiv(sc))
+        ops_s = f"(let fu := [{fu}] in {ops_s})"
     return f"mkCase {'true' if sc['lenient'] else 'false'} {ops_s} [{';'.join(obs_t)}]"
 
 
@@ -595,17 +645,30 @@ def distribution(scenarios, observations):
     kinds = {}
     errs = {}
     nops = []
+    forms = {}
+    f_differs = 0
     for s, o in zip(scenarios, observations):
         nops.append(len(s["ops"]))
         for op in s["ops"]:
             kinds[op[0]] = kinds.get(op[0], 0) + 1
+            if op[0] == "select":
+                forms[op[3]] = forms.get(op[3], 0) + 1
+        if any(op[0] == "select" and op[3] == "ftype" for op in s["ops"]):
+            # foreign Type object whose answer is not the one the same name gives through the CAS's own type system
+            alt = json.loads(json.dumps(s))
+            for op in alt["ops"]:
+                if op[0] == "select" and op[3] == "ftype":
+                    op[3] = "full"
+            f_differs += sum(1 for a, b, op in zip(expected(s), expected(alt), s["ops"])
+                             if op[0] == "select" and op[3] == "ftype" and a != b)
         if o:
             for x in o["obs"]:
                 if x[0] == "err":
                     errs[x[1]] = errs.get(x[1], 0) + 1
     return {"cases": len(scenarios), "exhaustive": sum(1 for s in scenarios if s.get("kind") == "ex"),
             "random": sum(1 for s in scenarios if s.get("kind") != "ex"), "max_ops": max(nops or [0]),
-            "ops_by_kind": kinds, "exceptions_by_kind": errs,
+            "ops_by_kind": kinds, "exceptions_by_kind": errs, "selects_by_form": forms,
+            "foreign_type_selects_differing_from_own_name_lookup": f_differs,
             "lenient_cases": sum(1 for s in scenarios if s["lenient"]),
             "max_user_types": max([len(s["univ"]) for s in scenarios] or [0])}
 
@@ -633,6 +696,10 @@ def extra_checks(ctx):
     m = re.search(r"Definition builtin_types.*?:=\s*\[(.*?)\]\.", src, flags=re.S)
     pairs = re.findall(r'\("([^"]+)",\s*"([^"]+)"\)', m.group(1)) if m else []
     out.append(("Coq prelude equals the oracle's predefined types", pairs == list(BUILTIN), "" if pairs == list(BUILTIN) else str(pairs[:3]), None))
+    m = re.search(r"Definition ex_fu.*?:=\s*\[(.*?)\]\.", src, flags=re.S)
+    pairs = [list(x) for x in re.findall(r'\("([^"]+)",\s*"([^"]+)"\)', m.group(1))] if m else []
+    out.append(("Coq ex_fu equals the second type system of the exhaustive histories", pairs == EX_FUNIV,
+                "" if pairs == EX_FUNIV else str(pairs), None))
     return out
 
 
